@@ -35,6 +35,10 @@ requests (bytes are arrays of 0..255, text arrays of code points):
   {"op":"x_prims","layout":L,"prims":[{typ,indices,verts:[[bits×3]…]}]} → {"prims":[b…],"indices":[b…],"verts":[b…]}
   {"op":"x_texinfo","layout":L,"vitamin":b,"textures":[name id…],"fold":[[name id, class]…],"tdv":[[id,{mat,r,w,h}]…],"infos":[{f,flags,td}]}
         → {"texinfo":[b…],"texdata":[b…],"textures":[name id…]}
+  {"op":"x_overlays","texinfo":[id…],"overlays":[{id,texinfo,faces,ro,floats:[22 bits],fmin,fmax,levels:[4]}]}
+        → {"overlays":[b…],"fades":[b…],"levels":[b…],"texinfo":[id…]} | {"err":e}
+  {"op":"x_surfedges","layout":L,"verts":[id…],"zeros":[id…],"fresh":id,"dummy":id,"ed":[[edge,a,b]…],"ss":[[edge,reversed]…]}
+        → {"surfedges":[b…],"edges":[b…],"verts":[id…]}
   {"op":"gen"}                                           → facts extracted from the source
 -/
 open Lean StructCodec C11
@@ -439,6 +443,49 @@ def handle (j : Json) : Except String Json := do
     let r := writeTexinfo vit fold (lookupD tds ⟨0, 0, 0, 0, 0, 0⟩) textures infos
     pure (Json.mkObj [("texinfo", ← packRecs "texinfo" layout r.1), ("texdata", ← packRecs "texdata" layout r.2.1),
       ("textures", Wire.ofNatList r.2.2)])
+  | "x_overlays" =>
+    let texinfo ← natsOf j "texinfo"
+    let oj ← (← j.getObjVal? "overlays").getArr?
+    let os ← oj.toList.mapM fun q => do
+      let fl ← Wire.natList (← q.getObjVal? "floats")
+      let lv ← Wire.intList (← q.getObjVal? "levels")
+      pure (OverlayV.mk (← intOf q "id") (← natOf q "texinfo") (← Wire.intList (← q.getObjVal? "faces")) (← natOf q "ro")
+        (fl.map UInt32.ofNat) (UInt32.ofNat (← natOf q "fmin")) (UInt32.ofNat (← natOf q "fmax")) lv[0]! lv[1]! lv[2]! lv[3]!)
+    match writeOverlays Gen.Bspfmt.overlayFaceCount (Finder.mk' idKey texinfo) os with
+    | .error e => pure (errJson (lumpErr e))
+    | .ok (rs, fs, ls, f') =>
+      -- the writer packs head, the faces with its per-count format (pad bytes), then the floats
+      let mut out : Bytes := []
+      for (o, r) in List.zip os rs do
+        let facesFmt := (Gen.Bspfmt.overlayWriterFaces.find? (·.1 == o.faces.length)).map (·.2)
+        match facesFmt with
+        | none => throw "no face format"
+        | some ff =>
+          match wireCat (Gen.Bspfmt.overlayWriterHead :: ff :: Gen.Bspfmt.overlayWriterTail) with
+          | none => throw "overlay format"
+          | some fmt =>
+            match pack fmt (r.take 3 ++ o.faces.map Val.int ++ o.floats.map Val.f32) with
+            | .ok b => out := out ++ b
+            | .error e => throw (structErr e)
+      pure (Json.mkObj [("overlays", ofBytes out), ("fades", ← packRecs "overlay_fades" "*" fs),
+        ("levels", ← packRecs "overlay_levels" "*" ls), ("texinfo", Wire.ofNatList f'.list)])
+  | "x_surfedges" =>
+    let layout ← j.getObjValAs? String "layout"
+    let verts ← natsOf j "verts"
+    let zeros ← natsOf j "zeros"
+    let fresh ← natOf j "fresh"
+    let dummy ← natOf j "dummy"
+    let ej ← (← j.getObjVal? "ed").getArr?
+    let eds ← ej.toList.mapM fun q => do
+      let a ← Wire.natList q
+      pure (a[0]!, (a[1]!, a[2]!))
+    let sj ← (← j.getObjVal? "ss").getArr?
+    let ss ← sj.toList.mapM fun q => do
+      let a ← q.getArr?
+      pure (SurfEdgeV.mk (← (a[0]!).getNat?) (← (a[1]!).getBool?))
+    let r := writeSurfedges (fun v => zeros.contains v) fresh dummy (lookupD eds (0, 0)) verts ss
+    pure (Json.mkObj [("surfedges", ← packRecs "surfedges" "*" (r.1.map (fun i => [Val.int i]))),
+      ("edges", ← packRecs "edges" layout r.2.1), ("verts", Wire.ofNatList r.2.2)])
   | "gen" =>
     pure (Json.mkObj [
       ("findOrExtendBounded", Json.bool Gen.Bspfmt.findOrExtendBounded),
